@@ -65,9 +65,15 @@ fn run_mode(case: &Case, mode: Mode, chunks: bool, sc: &Scratch, tag: &str) -> R
                 Item::Chunk(c) => {
                     model.write(c, now);
                     use std::io::Write;
-                    match w.write(c) {
-                        Ok(n) if n == c.len() => {}
-                        other => return Err(format!("io::Write::write returned {other:?} for a chunk of {} bytes", c.len())),
+                    // io::Write::write may accept fewer bytes than offered: the rest is offered
+                    // again, as write_all does (an empty chunk is offered exactly once)
+                    let mut rest: &[u8] = c;
+                    loop {
+                        match w.write(rest) {
+                            Ok(n) if n == rest.len() => break,
+                            Ok(n) if n > 0 && n < rest.len() => rest = &rest[n..],
+                            other => return Err(format!("io::Write::write returned {other:?} for {} offered bytes (chunk of {} bytes)", rest.len(), c.len())),
+                        }
                     }
                 }
                 Item::Flush => {
